@@ -277,6 +277,12 @@ class Parser:
 
         for num, self.line in enumerate(lines):
             self.process_line(num != len(lines) - 1)
+        if self.statement:
+            # the last line started a new statement (the one before it had no ';'):
+            # it is still pending - parse it as well instead of keeping it for the next run()
+            self.new_statement = False
+            self.set_default_flags_in_lexer()
+            self.process_statement()
         if self.comments:
             self.tables.append({"comments": self.comments})
         return self.tables
